@@ -49,14 +49,19 @@ fn cases(thorough: bool) -> Vec<CaseSpec> {
 
 /// The size limit as the real configuration code produces it for the
 /// documented spelling (0 = disabled), given on the command line (even
-/// case indexes) or in the config file (odd ones).
+/// case indexes) or in the config file (odd ones); the default limit also
+/// by not being mentioned at all (every third case).
 fn configured_limit(dir: &std::path::Path, idx: usize, limit: Option<u64>) -> Result<Option<u64>, String> {
     use clap::Command;
     use routinator::config::Config;
     let value = limit.unwrap_or(0);
     let conf = dir.join("limit.conf");
     let mut args: Vec<String> = vec!["routinator".into(), "-c".into(), conf.display().to_string()];
-    if idx % 2 == 0 {
+    if limit == Some(DEFAULT_LIMIT) && idx % 3 == 2 {
+        // the documented default: mentioned neither in the file nor on the command line
+        std::fs::write(&conf, "repository-dir = \"/nonexistent\"\n").map_err(|e| e.to_string())?;
+    }
+    else if idx % 2 == 0 {
         std::fs::write(&conf, "repository-dir = \"/nonexistent\"\n").map_err(|e| e.to_string())?;
         args.push("--max-object-size".into());
         args.push(value.to_string());
@@ -171,7 +176,8 @@ pub fn run(ctx: &Ctx) -> Report {
         an RRDP snapshot, object published in an RRDP delta}, on the real \
         RRDP collector over the fake HTTPS transport, the limit being \
         configured through the real option parsing (command line for \
-        even, config file for odd case numbers; 0 = disabled); oracle: accepted \
+        even, config file for odd case numbers, the default also by being \
+        mentioned nowhere; 0 = disabled); oracle: accepted \
         (trust anchor bytes returned in full / update succeeds and the \
         object is loadable) iff size <= limit or the limit is disabled; \
         non-trivial = cases at limit or limit+1, and the 25 MB cases".into();
